@@ -75,6 +75,8 @@ def dialerForRequest (p : State) (host : List Nat) (ip : Option (List Nat)) : Bo
     else if p.ips.any (fun b => ipEqual b ip) then true
     else false
   | none =>
+    -- `host = strings.TrimSuffix(host, ".")`: rules are stored without the dot of a rooted name
+    let host := trimSuffixDot host
     if p.zones.any (fun z => hasSuffix host z || host == z.drop 1) then true
     else if p.hosts.any (fun h => h == host) then true
     else false
